@@ -51,9 +51,10 @@ fn is_keyword(kind: &str) -> bool {
 }
 
 /// render a token stream under a random admissible layout and keyword casing
-fn render_layout(toks: &[Tok], enders: &[String], rng: &mut Rng) -> String {
+/// mode 0: random; 1: everything on one line (`;` terminators, single blanks); 2: a line break wherever one is admissible
+fn render_layout(toks: &[Tok], enders: &[String], rng: &mut Rng, mode: u8) -> String {
     let mut s = String::new();
-    if rng.chance(1, 4) {
+    if mode == 0 && rng.chance(1, 4) {
         s.push_str(["\n", "  ", "// héader 中\n", "\t\r\n", "\n\n// x\n"][rng.below(5)]);
     }
     let n = toks.len();
@@ -67,11 +68,19 @@ fn render_layout(toks: &[Tok], enders: &[String], rng: &mut Rng) -> String {
             let prev_is_ender = i > 0 && enders.contains(&toks[i - 1].kind);
             // a statement may stand directly before the closing brace of its block or the end of the input
             let next_closes = toks[i + 1..].iter().find(|t| t.kind != "SoftSemi").map(|t| t.kind == "RightBrace" || t.kind == "Eof").unwrap_or(true);
+            if mode == 1 {
+                s.push_str("; ");
+                continue;
+            }
+            if mode == 2 {
+                s.push_str(if prev_is_ender { "\n" } else { ";\n" });
+                continue;
+            }
             if next_closes && i > 0 && toks[i - 1].kind != "SoftSemi" && rng.chance(1, 3) {
                 s.push(' ');
                 continue;
             }
-            if prev_is_ender && t.lexeme == "\n" || (prev_is_ender && rng.chance(1, 2)) {
+            if prev_is_ender && rng.chance(1, 2) {
                 s.push_str(["\n", "\n", " \n", "\r\n", " // c\n", "\n\n  \n", "\n// é\n", " // path C:\\tmp\\\n", " //\n", "\n// \"quoted\" // nested \\\n", " \\\n\n", " \\\n  \t\n", "\\\n\r\n", " \\\n \\\n\n"][rng.below(14)]);
             } else {
                 s.push_str([";", " ;", "; ", ";\n", " ; // c\n"][rng.below(5)]);
@@ -93,7 +102,11 @@ fn render_layout(toks: &[Tok], enders: &[String], rng: &mut Rng) -> String {
             let next = &toks[i + 1];
             let may_join = is_bracketish(t) || is_bracketish(next);
             let may_break = !enders.contains(&t.kind);
-            let k = rng.below(12);
+            let k = match mode {
+                1 => 11,
+                2 => 6,
+                _ => rng.below(12),
+            };
             let sep = match k {
                 0 | 1 if may_join => "",
                 2 => "  ",
@@ -109,7 +122,7 @@ fn render_layout(toks: &[Tok], enders: &[String], rng: &mut Rng) -> String {
             s.push_str(sep);
         }
     }
-    if rng.chance(1, 2) {
+    if mode == 0 && rng.chance(1, 2) {
         s.push_str(["\n", " ", "// end", "\n\n", " // end 中\n"][rng.below(5)]);
     }
     s
@@ -139,13 +152,24 @@ pub fn c06(ctx: &Ctx) -> PropResult {
             programs.push(format!("l <- [1, 2]\nPROCEDURE f(a) {{\nRETURN a\n}}\nDISPLAY(\"start\")\n{last}\n"));
         }
     }
+    // behaviour must not depend on which line a construct is on: the same name declared twice, statements that the
+    // layout may put on one line or on different lines
+    for _ in 0..4 {
+        programs.push("PROCEDURE f() {\nRETURN 1\n}\nDISPLAY(f())\nPROCEDURE f() {\nRETURN 2\n}\nDISPLAY(f())\nPROCEDURE f() {\nRETURN 3\n}\nDISPLAY(f())\n".to_string());
+        programs.push("x <- 1\nx <- x + 1\nl <- [x, x]\nl <- l + l\nDISPLAY(l)\nPROCEDURE g(a) {\nRETURN a\n}\nPROCEDURE g(a) {\nRETURN a + 1\n}\nDISPLAY(g(x))\n".to_string());
+    }
     let per = if ctx.quick() { 6 } else { 20 };
     let mut cases = vec![];
     for p in &programs {
         let Some(toks) = impl_tokens(p) else { continue };
         for _ in 0..per {
-            let rendered = render_layout(&toks, &enders, &mut rng);
+            let rendered = render_layout(&toks, &enders, &mut rng, 0);
             cases.push(Case::new(Kind::Run, rendered).tag("layout").aux(p.clone()));
+        }
+        // the two extreme layouts: the whole program on one line, and a line break wherever one is admissible
+        for mode in [1u8, 2] {
+            let rendered = render_layout(&toks, &enders, &mut rng, mode);
+            cases.push(Case::new(Kind::Run, rendered).tag("layout").tag(if mode == 1 { "layout:one-line" } else { "layout:max-breaks" }).aux(p.clone()));
         }
         cases.push(Case::new(Kind::Lex, p.clone()).tag("canonical-lex"));
     }
@@ -695,6 +719,15 @@ pub fn c11(ctx: &Ctx) -> PropResult {
             let crlf = format!("{}語 <- 5\r\n{}\r\nDISPLAY(1)\r\n", noise[ni].replace('\n', "\r\n").replace("\r\r", "\r"), b);
             cases.push(run_case(crlf.clone(), "front-end-error"));
             cases.push(Case::new(Kind::Parse, crlf).tag("front-end-error-labels"));
+        }
+    }
+    // every kind of lexical / syntactic error as the very last thing of the input (no final newline), after ASCII and
+    // after multi-byte text
+    for last in ["\\", "!", "=", "\"open", "\"bad \\q", "\"bad \\", "#", "é", "😀", "(", "[", "{", "x <- ", "x <- 1 +", "IF (", "f(1,", "REPEAT", "NOT", "x[", "PROCEDURE", "\"a\\"] {
+        for before in ["", "x <- 1\n", "// 語\ny <- \"é\"\n", "z <- 1 "] {
+            let src = format!("{before}{last}");
+            cases.push(run_case(src.clone(), "front-end-error"));
+            cases.push(Case::new(Kind::Parse, src).tag("front-end-error-labels"));
         }
     }
     // errors inside an exported procedure of a user module: the diagnostic belongs to the module's text
